@@ -101,7 +101,7 @@ def mutated_names(tree, names, defs=(), dynamic=None):
     for n in ast.walk(tree):
         if isinstance(n, ast.Name) and n.id in names and isinstance(n.ctx, (ast.Store, ast.Del)) and id(n) not in defs:
             bad.add(n.id)
-        elif isinstance(n, ast.Attribute) and n.attr in names and isinstance(n.ctx, (ast.Store, ast.Del)):
+        elif isinstance(n, ast.Attribute) and n.attr in names and isinstance(n.ctx, (ast.Store, ast.Del)) and id(n) not in defs:
             bad.add(n.attr)
         elif isinstance(n, ast.Subscript) and isinstance(n.ctx, (ast.Store, ast.Del)):
             b = n.value
@@ -145,6 +145,16 @@ class Tables:
             if isinstance(s, ast.ClassDef):
                 for t in s.body:
                     self._cand(t, s.name, cands, fnames)
+                    # a dispatch table of the instance: self.NAME = {key: self.<method>, ...} as a statement of __init__ (every value a bound
+                    # method of the object itself) - read as self.NAME like a class-level table
+                    if isinstance(t, ast.FunctionDef) and t.name == '__init__':
+                        mnames = {x.name for x in s.body if isinstance(x, ast.FunctionDef)}
+                        for st_ in t.body:
+                            if isinstance(st_, ast.Assign) and len(st_.targets) == 1 and isinstance(st_.targets[0], ast.Attribute) and isinstance(st_.targets[0].value, ast.Name) \
+                                    and st_.targets[0].value.id == 'self' and isinstance(st_.value, ast.Dict) and 0 < len(st_.value.keys) <= MAX and _lit_ok(st_.value, fnames) \
+                                    and all(isinstance(v_, ast.Attribute) and isinstance(v_.value, ast.Name) and v_.value.id == 'self' and v_.attr in mnames for v_ in st_.value.values):
+                                st_.value._raw = st_.value
+                                cands.append((s.name, st_.targets[0].attr, st_.value, st_.targets[0]))
         if not cands:
             return
         # disqualify tables that are rebound or mutated anywhere
@@ -518,6 +528,8 @@ class Expander:
         fnames = {n.name for n in self.tree.body if isinstance(n, ast.FunctionDef)}
         if all(isinstance(v, ast.Constant) and isinstance(v.value, str) and v.value.isidentifier() for v in lit.values):
             found = found + ('names',)        # a table of attribute / method names: sunk when the result only names an attribute (see sink)
+        elif all(isinstance(v, ast.Attribute) and isinstance(v.value, ast.Name) and v.value.id == 'self' for v in lit.values):
+            found = found + ('methods',)      # bound methods of the object: never None, called where the result is called
         elif not all(isinstance(v, ast.Lambda) or (isinstance(v, ast.Name) and v.id in fnames)
                      or (isinstance(v, ast.Tuple) and v.elts and all(isinstance(y, ast.Lambda) or (isinstance(y, ast.Name) and y.id in fnames) for y in v.elts))
                      for v in lit.values):
@@ -534,7 +546,7 @@ class Expander:
             for n in ast.walk(t):
                 if isinstance(n, ast.Name) and n.id == x and isinstance(n.ctx, (ast.Store, ast.Del)):
                     return None
-        if len(found) > 5:
+        if len(found) > 5 and found[5] == 'names':
             # names table: x may only be tested (is None / truth) or name an attribute: getattr(o, x) / setattr(o, x, v) / hasattr(o, x)
             for t in rest:
                 for n in ast.walk(t):
@@ -582,10 +594,12 @@ class Expander:
                     for e_, v_ in zip(t.targets[0].elts, val.elts):
                         m_[e_.id] = v_
                     continue
-                nt = _Simplify(fnames).visit(_Sub(m_).visit(copy.deepcopy(t)))
+                if len(found) > 5 and found[5] == 'methods' and isinstance(val, ast.Attribute):
+                    val._from_table = True
+                nt = _Simplify(fnames, self_methods=(len(found) > 5 and found[5] == 'methods')).visit(_Sub(m_).visit(copy.deepcopy(t)))
                 if nt is None:
                     continue
-                if len(found) > 5:
+                if len(found) > 5 and found[5] == 'names':
                     nt = [_ConstStrings().visit(_Getattr().visit(y)) for y in (nt if isinstance(nt, list) else [nt])]
                 for y in (nt if isinstance(nt, list) else [nt]):
                     body.append(y)
@@ -593,7 +607,7 @@ class Expander:
                         break          # what follows is dead in this arm
                 if body and isinstance(body[-1], (ast.Return, ast.Raise)):
                     break
-            if len(found) > 5:
+            if len(found) > 5 and found[5] == 'names':
                 body = _arm_aliases(body)
             return self.block(body, clsname, fn) or [ast.copy_location(ast.Pass(), s)]
         if raises:
@@ -873,8 +887,9 @@ def _simple_test(t):
 class _Simplify(ast.NodeTransformer):
     """after a callable was substituted for a name: (lambda a: E)(x) -> E[a := x];  <lambda/function/None> is None -> constant; if <constant>: ..."""
 
-    def __init__(self, fnames=()):
+    def __init__(self, fnames=(), self_methods=False):
         self.fnames = set(fnames)
+        self.self_methods = self_methods       # self.<name> stands for a bound method here (never None)
 
     def visit_Call(self, node):
         self.generic_visit(node)
@@ -892,7 +907,8 @@ class _Simplify(ast.NodeTransformer):
         self.generic_visit(node)
         if len(node.ops) == 1 and isinstance(node.ops[0], (ast.Is, ast.IsNot)) and isinstance(node.comparators[0], ast.Constant) and node.comparators[0].value is None:
             l = node.left
-            if isinstance(l, ast.Lambda) or (isinstance(l, ast.Name) and l.id in self.fnames) or (isinstance(l, ast.Tuple) and l.elts):
+            if isinstance(l, ast.Lambda) or (isinstance(l, ast.Name) and l.id in self.fnames) or (isinstance(l, ast.Tuple) and l.elts) \
+                    or (self.self_methods and isinstance(l, ast.Attribute) and isinstance(l.value, ast.Name) and l.value.id == 'self' and getattr(l, '_from_table', False)):
                 return ast.copy_location(ast.Constant(value=isinstance(node.ops[0], ast.IsNot)), node)
             if isinstance(l, ast.Constant) and l.value is None:
                 return ast.copy_location(ast.Constant(value=isinstance(node.ops[0], ast.Is)), node)
